@@ -1,6 +1,7 @@
 package props
 
 import (
+	"time"
 	"fmt"
 	nurl "net/url"
 	"os"
@@ -22,6 +23,7 @@ type c12Job struct {
 	Doc    int  `json:"doc"`
 	Opt    int  `json:"opt"`
 	Reader bool `json:"reader"` // the call is ApplyForReader on the document's bytes instead of Apply on the shared tree
+	ViaURL bool `json:"via_url"` // the call is ApplyForURL against the loopback server (with the shared options)
 }
 
 type c12Extra struct {
@@ -60,11 +62,12 @@ func genC12(t *rapid.T) *Case {
 	g := rapid.IntRange(4, 24).Draw(t, "goroutines")
 	for i := 0; i < g; i++ {
 		ex.Jobs = append(ex.Jobs, c12Job{Doc: rapid.IntRange(0, nd-1).Draw(t, "jdoc"), Opt: rapid.IntRange(-1, len(ex.Opts)-1).Draw(t, "jopt"),
-			Reader: rapid.IntRange(0, 3).Draw(t, "jreader") == 0})
+			Reader: rapid.IntRange(0, 3).Draw(t, "jreader") == 0, ViaURL: rapid.IntRange(0, 7).Draw(t, "jurl") == 0})
 	}
 	for i := range ex.Jobs {
 		if ex.Docs[ex.Jobs[i].Doc].Legacy {
 			ex.Jobs[i].Reader = true
+			ex.Jobs[i].ViaURL = false
 		}
 	}
 	ex.Rounds = rapid.IntRange(1, 3).Draw(t, "rounds")
@@ -182,6 +185,13 @@ func checkC12(c *Case) (*Violation, caseInfo) {
 		}
 		return trees[j.Doc%len(trees)], o
 	}
+	// pages for the ApplyForURL jobs
+	server, _ := pageServer()
+	urlPaths := make([]string, len(ex.Docs))
+	for i, d := range ex.Docs {
+		urlPaths[i] = "/c12/" + shortHash(d.HTML) + "/page.html"
+		srvPages.Store(urlPaths[i], d.HTML)
+	}
 	before := raceLogSize()
 	var mu sync.Mutex
 	var viol *Violation
@@ -210,7 +220,9 @@ func checkC12(c *Case) (*Violation, caseInfo) {
 					}()
 					var res *distiller.Result
 					var err error
-					if j.Reader {
+					if j.ViaURL && server != nil {
+						res, err = distiller.ApplyForURL(server.URL+urlPaths[j.Doc%len(ex.Docs)], time.Duration(5+i%7)*time.Second, o)
+					} else if j.Reader {
 						res, err = distiller.ApplyForReader(strings.NewReader(ex.Docs[j.Doc%len(ex.Docs)].Bytes()), o)
 					} else {
 						res, err = distiller.Apply(tr, o)
@@ -234,6 +246,9 @@ func checkC12(c *Case) (*Violation, caseInfo) {
 	for i, j := range ex.Jobs {
 		tr, o := pick(j)
 		out := guarded(0, func() (*distiller.Result, error) {
+			if j.ViaURL && server != nil {
+				return distiller.ApplyForURL(server.URL+urlPaths[j.Doc%len(ex.Docs)], 10*time.Second, o)
+			}
 			if j.Reader {
 				return distiller.ApplyForReader(strings.NewReader(ex.Docs[j.Doc%len(ex.Docs)].Bytes()), o)
 			}
